@@ -1075,7 +1075,10 @@ func (z *Decimal) SetFloat(x *big.Float) *Decimal {
 	exp2 -= int64(fprec)
 	if exp2 != 0 {
 		// multiply / divide by 2**exp with increased precision
-		z.prec++
+		prec := z.prec
+		if z.prec < MaxPrec {
+			z.prec++
+		}
 		t := new(Decimal).SetPrec(uint(z.prec))
 		if exp2 < 0 {
 			if exp2 < MinExp {
@@ -1088,7 +1091,7 @@ func (z *Decimal) SetFloat(x *big.Float) *Decimal {
 		} else {
 			z = z.Mul(z, t.pow2(uint64(exp2)))
 		}
-		z.prec--
+		z.prec = prec
 	}
 	z.round(0)
 	return z
@@ -1135,14 +1138,17 @@ func (z *Decimal) SetFloat64(x float64) *Decimal {
 	z.exp = int32(len(z.mant))*_DW - int32(dnorm(z.mant))
 	if exp2 != 0 {
 		// multiply / divide by 2**exp with increased precision
-		z.prec++
+		prec := z.prec
+		if z.prec < MaxPrec {
+			z.prec++
+		}
 		t := new(Decimal).SetPrec(uint(z.prec))
 		if exp2 < 0 {
 			z = z.Quo(z, t.pow2(uint64(-exp2)))
 		} else {
 			z = z.Mul(z, t.pow2(uint64(exp2)))
 		}
-		z.prec--
+		z.prec = prec
 	}
 	z.round(0)
 	return z
